@@ -61,7 +61,7 @@ Proof. exact escape_dollar. Qed.
 (* the common subset behaves the same: every pattern of the grammar of Proofs/GroupGrammar.v that is
    valid under XSD (capturing groups only, greedy quantifiers only) compiles under both dialects, and
    the two programs give the same verdict on every input *)
-Theorem C17_group_grammar_same_in_both_dialects :
+Theorem C17_group_grammar_same_in_both_dialects_partial :
   forall fl fl' a input,
     ok_a false a = true -> f_xpath fl = false -> f_xpath fl' = true ->
     f_case fl = f_case fl' -> f_multi fl = f_multi fl' ->
@@ -79,4 +79,4 @@ Print Assumptions C17_q_rejected.
 Print Assumptions C17_caret_dollar_by_dialect_partial.
 Print Assumptions C17_noncapturing_rejected_in_xsd_partial.
 Print Assumptions C17_escaped_dollar_by_dialect_partial.
-Print Assumptions C17_group_grammar_same_in_both_dialects.
+Print Assumptions C17_group_grammar_same_in_both_dialects_partial.
